@@ -349,6 +349,7 @@ inline int driver_main(int argc, char **argv) {
         seqx_replay(R, c);
         if (!R.replay_failed) printf("OUTCOME sig=none\n");
         fflush(stdout);
+        if (getenv("SEQX_LEAKCHECK")) exit(R.replay_failed ? 1 : 0);
         _exit(R.replay_failed ? 1 : 0);
     }
     double t0 = wall();
